@@ -973,10 +973,20 @@ func (db *DB) doWrites(lc *z.Closer) {
 	reqs := make([]*request, 0, 10)
 	for {
 		var r *request
-		select {
-		case r = <-db.writeCh:
-		case <-lc.HasBeenClosed():
-			goto closedCase
+		if vhook.On {
+			// Under simulation a pending request deterministically wins over a
+			// closed closer (the runtime would pick one of the two at random).
+			select {
+			case r = <-db.writeCh:
+			default:
+			}
+		}
+		if r == nil {
+			select {
+			case r = <-db.writeCh:
+			case <-lc.HasBeenClosed():
+				goto closedCase
+			}
 		}
 		vhook.Point("doWrites.recv")
 
